@@ -21,7 +21,8 @@ RULE = (
     "reverse; each BPh/BR joins different residues, carries a class implied by a base-donor atom of nt1 possibly "
     "within 4.0 A of a phosphate/ribose oxygen of nt2 IN THE ANALYSED MODEL (3+5->4, 7+9->8 merges allowed), at most "
     "one BPh and one BR per ordered residue pair. Non-trivial: annotation with >=1 BPh, >=1 BR and >=1 "
-    "non-canonical pair; distinct = distinct case description."
+    "non-canonical pair; distinct = distinct case description. For corpus files and mini-structures write_csv and write_json "
+    "are parsed back and must list exactly the annotation's interactions (order, names, classes) and texts."
 )
 ASSUMPTIONS = [
     "BPh/BR: only soundness and uniqueness are claimed (which consumed contact survives is order-dependent and not part of the statement)",
@@ -111,6 +112,73 @@ def check_lists(s3, model, rr_model, out, info):
     info["pairs"] += len(lists["basePairs"])
 
 
+def check_outputs(s3, out, info):
+    """write_csv / write_json list exactly the interactions of the annotation (same order, names, classes)"""
+    import csv
+    import json
+    import os
+
+    from rnapolis.annotator import extract_secondary_structure, write_csv, write_json
+    from rnaverif.runner import WORK_DIR
+
+    s2, _ = extract_secondary_structure(s3, None, False, False)
+    bi = s2.baseInteractions
+    os.makedirs(WORK_DIR, exist_ok=True)
+    base = os.path.join(WORK_DIR, f"c11_{os.getpid()}")
+    try:
+        write_csv(base + ".csv", s2)
+        write_json(base + ".json", s2)
+        with open(base + ".csv", newline="") as f:
+            rows = list(csv.reader(f))
+        with open(base + ".json") as f:
+            js = json.load(f)
+    finally:
+        for ext in (".csv", ".json"):
+            try:
+                os.remove(base + ext)
+            except OSError:
+                pass
+    want = []
+    for b in bi.basePairs:
+        want.append([b.nt1.full_name, b.nt2.full_name, "base pair", b.lw.value, b.saenger.value if b.saenger else ""])
+    for x in bi.stackings:
+        want.append([x.nt1.full_name, x.nt2.full_name, "stacking", x.topology.value if x.topology else "", ""])
+    for x in bi.basePhosphateInteractions:
+        want.append([x.nt1.full_name, x.nt2.full_name, "base-phosphate interaction", x.bph.value if x.bph else "", ""])
+    for x in bi.baseRiboseInteractions:
+        want.append([x.nt1.full_name, x.nt2.full_name, "base-ribose interaction", x.br.value if x.br else "", ""])
+    for x in bi.otherInteractions:
+        want.append([x.nt1.full_name, x.nt2.full_name, "other interaction", "", ""])
+    if rows[:1] != [["nt1", "nt2", "type", "classification-1", "classification-2"]]:
+        out.append(D("C11:csv:header", f"{rows[:1]}"))
+    elif rows[1:] != want:
+        k = next((i for i, (a, b) in enumerate(zip(rows[1:], want)) if a != b), min(len(rows) - 1, len(want)))
+        out.append(D("C11:csv:rows-differ-from-annotation", f"{len(rows) - 1} rows for {len(want)} interactions; first difference at row {k}: {rows[1:][k:k + 1]} vs {want[k:k + 1]}"))
+    jb = js.get("baseInteractions", {})
+    for key, lst, cls in (("basePairs", bi.basePairs, "lw"), ("stackings", bi.stackings, "topology"),
+                          ("basePhosphateInteractions", bi.basePhosphateInteractions, "bph"),
+                          ("baseRiboseInteractions", bi.baseRiboseInteractions, "br")):
+        got = jb.get(key)
+        exp = []
+        for it in lst:
+            a1, a2 = it.nt1.auth, it.nt2.auth
+            v = getattr(it, cls)
+            exp.append(((a1.chain, a1.number, a1.icode, a1.name) if a1 else None, (a2.chain, a2.number, a2.icode, a2.name) if a2 else None,
+                        v.value if v is not None else None))
+        try:
+            have = [(((g["nt1"]["auth"]["chain"], g["nt1"]["auth"]["number"], g["nt1"]["auth"]["icode"], g["nt1"]["auth"]["name"]) if g["nt1"].get("auth") else None),
+                     ((g["nt2"]["auth"]["chain"], g["nt2"]["auth"]["number"], g["nt2"]["auth"]["icode"], g["nt2"]["auth"]["name"]) if g["nt2"].get("auth") else None),
+                     g.get(cls)) for g in got]
+        except Exception as e:
+            out.append(D("C11:json:shape", f"{key}: {type(e).__name__}: {e}"))
+            continue
+        if have != exp:
+            out.append(D("C11:json:list-differs-from-annotation", f"{key}: {len(have)} entries vs {len(exp)} interactions"))
+    if js.get("bpseq") != s2.bpseq or js.get("dotBracket") != s2.dotBracket or js.get("extendedDotBracket") != s2.extendedDotBracket:
+        out.append(D("C11:json:texts-differ", "bpseq / dotBracket / extendedDotBracket in the JSON differ from the Structure2D"))
+    info["outputs_checked"] = info.get("outputs_checked", 0) + 1
+
+
 def evaluate(s3, models=(None,)):
     info = {"bph": 0, "br": 0, "noncanonical": 0, "pairs": 0, "min_margin": float("inf"), "skipped": False}
     out = []
@@ -150,6 +218,8 @@ def oracle(case):
     else:
         models = (None,)
     ds, info = evaluate(s3, models)
+    if models == (None,) and case["kind"] in ("file", "mini") and not info.get("skipped"):
+        check_outputs(s3, ds, info)
     case["_info11"] = info
     return ds
 
